@@ -47,6 +47,11 @@ class InlineJump(ast.Pass):
     _fields = ()
 
 
+# ast.unparse dispatches on the class name: print the two node kinds like the statements they derive from
+if hasattr(ast, "_Unparser"):
+    ast._Unparser.visit_InlineBlock = ast._Unparser.visit_With  # type: ignore[attr-defined]
+    ast._Unparser.visit_InlineJump = ast._Unparser.visit_Pass  # type: ignore[attr-defined]
+
 FuncDef = ast.FunctionDef
 
 
